@@ -1099,7 +1099,10 @@ def compile_comprehension(compiler, expr, root, parts, final):
                         brackets[1]))
                 .body[0].value)
 
-        # We can produce a real comprehension.
+        # We can produce a real comprehension. Let enclosing scopes know
+        # of any assignment expressions in it, which Python will leak
+        # to them.
+        scope.finalize()
         generators = []
         for tagname, v in parts:
             if tagname in ("for", "afor"):
